@@ -44,6 +44,7 @@ var (
 	ErrPreBlockMissMatch    = errors.New("play block failed because pre-hash != latest_block")
 	ErrUnexpected           = errors.New("this is a unexpected error")
 	ErrInvalidAutogenTx     = errors.New("found invalid autogen-tx")
+	ErrInvalidCoinbaseTx    = errors.New("coinbase tx may only carry outputs")
 	ErrUTXODuplicated       = errors.New("found duplicated utxo in same tx")
 	ErrRWSetInvalid         = errors.New("RWSet of transaction invalid")
 	ErrACLNotEnough         = errors.New("ACL not enough")
@@ -822,6 +823,11 @@ func (t *State) doTxSync(tx *pb.Transaction) error {
 }
 
 func (t *State) doTxInternal(tx *pb.Transaction, batch kvdb.Batch, cacheFiller *utxo.CacheFiller) error {
+	// award transactions are applied without signature and contract verification: they may only mint outputs
+	if tx.Coinbase && (len(tx.TxInputs) > 0 || len(tx.TxInputsExt) > 0 || len(tx.TxOutputsExt) > 0) {
+		t.log.Warn("coinbase tx spends outputs or writes keys", "txid", utils.F(tx.Txid))
+		return ErrInvalidCoinbaseTx
+	}
 	if tx.GetModifyBlock() == nil || (tx.GetModifyBlock() != nil && !tx.ModifyBlock.Marked) {
 		if err := t.utxo.CheckInputEqualOutput(tx); err != nil {
 			return err
